@@ -444,6 +444,7 @@ class TaskState:
         self.records = []
         self.modes = {}  # id(parser) -> error mode the harness last asked for
         self.cur_opts = {i: list(ss["o"]) for i, ss in enumerate(tspec.get("streams", []))}
+        self.cur_first = {}  # stream index -> the caller put the stream's parser into stop-at-first-error mode
         self.finished = False
 
     def body(self, task=None):
@@ -498,6 +499,14 @@ class TaskState:
                 ge.options.print_source, ge.options.print_ast, ge.options.print_pickles = o
             self.cur_opts[op["s"]] = list(o)
             return {"op": "setopts", "kind": "setopts", "norm": [op["s"], o], "raw": None, "snap": None, "draws": [], "reads": 0, "toks": 0, "dirty": []}
+        if kind == "setmode":  # the caller switches the stream's parser to stop-at-first-error mode (Parser's public flag)
+            ge = self.streams[op["s"]]
+            parser = getattr(ge, "parser", None)
+            done = parser is not None and hasattr(parser, "stop_at_first_error")
+            if done:
+                parser.stop_at_first_error = bool(op["first"])
+                self.cur_first[op["s"]] = bool(op["first"])
+            return {"op": "setmode", "kind": "setmode", "norm": [op["s"], bool(op["first"]), done], "raw": None, "snap": None, "draws": [], "reads": 0, "toks": 0, "dirty": []}
         if kind == "stream":
             from .stream_ops import run_stream
             return run_stream(self, op)
